@@ -1315,6 +1315,22 @@ def main(argv):
             via = via + "+o"
         jobs.append((d, text, via))
 
+    # LARGE documents (round 7, after seed C06-11: piped stdin decoded chunk by chunk, so that a multi-byte character
+    # lying across a 64 KiB read boundary is replaced): documents well above common buffer sizes (8 KiB, 64 KiB,
+    # 128 KiB) made of 2-, 3- and 4-byte characters at every alignment, through stdin (pipe), stdin + -o and -i
+    big = []
+    for ch, reps in (("\u00e9", 40000), ("\u20ac", 30000), ("\U0001F600", 50000)):
+        for shift in range(4):
+            big.append(("s", "a" * shift + ch * reps))
+    big.append(("a", [("s", "\u20ac" * 3000) for _ in range(40)]))
+    big.append(("o", [("k\u20ac%d" % i, ("s", "\U0001F600" * 700)) for i in range(60)]))
+    for i, d in enumerate(big if not quick else big[:: 2] + big[-2:]):
+        text = doc_to_text(d)
+        jobs.append((d, text, "stdin" if i % 3 else "stdin+o"))
+        if len(text.encode("utf-8")) < 100000:
+            jobs.append((d, text, "i"))
+    n_big = len(big)
+
     def one(job):
         d, text, via = job
         rc, out, err = cli_echo(cli, text, via)
